@@ -577,7 +577,10 @@ func closedGoverned(c *chk.Ctx, b *ssa.BasicBlock, sentinel *ssa.Global) bool {
 		if !ok {
 			return false
 		}
-		alts = append(alts, ir.CondAlternatives(own, 0)...)
+		// (the test may be a private predicate: "did the peer close?")
+		for _, a := range ir.CondAlternatives(own, 0) {
+			alts = append(alts, expandPredicateHelpers(c, a, 0)...)
+		}
 	}
 	if len(alts) != 2 {
 		return false
@@ -766,6 +769,39 @@ func ruleReaderExitStops(c *chk.Ctx, owner string) {
 				v, truth := cd.V, cd.Truth
 				if u, isU := v.(*ssa.UnOp); isU && u.Op == token.NOT {
 					v, truth = u.X, !truth
+				}
+				// an exit flag set on some branches and tested after the shared unlock: every edge
+				// that sets it to the exiting value follows a stop (or the already-stopped test)
+				if phi, isPhi := v.(*ssa.Phi); isPhi {
+					all, some := true, false
+					var walkPhi func(p *ssa.Phi, depth int)
+					walkPhi = func(p *ssa.Phi, depth int) {
+						for i, e := range p.Edges {
+							if inner, isInner := e.(*ssa.Phi); isInner && depth < 3 {
+								walkPhi(inner, depth+1)
+								continue
+							}
+							k, isK := e.(*ssa.Const)
+							if !isK || k.Value == nil {
+								all = false
+								continue
+							}
+							if (k.Value.String() == "true") != truth {
+								continue
+							}
+							some = true
+							pred := p.Block().Preds[i]
+							last := pred.Instrs[len(pred.Instrs)-1]
+							if !(stopDominates(last) || alreadyStoppedConds(append(ir.CondsAt(pred), ir.EdgeConds(pred, p.Block())...))) {
+								all = false
+							}
+						}
+					}
+					walkPhi(phi, 0)
+					if all && some {
+						stopped = true
+					}
+					continue
 				}
 				call, ok := ir.NormCell(v).(*ssa.Call)
 				if !ok || call.Call.StaticCallee() == nil || !c.P.InExt(reader, call.Call.StaticCallee()) {
